@@ -162,7 +162,7 @@ theorem inv_fromColor (v c b) : Inv (fromColor v c b) := by
   intro hn
   cases c <;> cases b <;> simp_all [fromColor, strTruthy]
 
-theorem hashOk_fromColor (v : Variant) (hv : v.fromColorHash = false) (c b) : HashOk (fromColor v c b) := by
+theorem hashOk_fromColor (v : StyleVariant) (hv : v.fromColorHash = false) (c b) : HashOk (fromColor v c b) := by
   simp [HashOk, fromColor, hv, fieldsKey]
 
 theorem and_or_sub {a sa vb sb : Nat} (ha : a &&& sa = a) :
@@ -189,7 +189,7 @@ theorem inv_add (v) {a b : Style} (ha : Inv a) (hb : Inv b) : Inv (add v a b) :=
       intro hn
       simp at hn
 
-theorem hashOk_add (v : Variant) (hv : v.addHash = false) {a b : Style} (ha : HashOk a) (hb : HashOk b) :
+theorem hashOk_add (v : StyleVariant) (hv : v.addHash = false) {a b : Style} (ha : HashOk a) (hb : HashOk b) :
     HashOk (add v a b) := by
   unfold add
   by_cases h1 : b.isNull = true
@@ -198,7 +198,7 @@ theorem hashOk_add (v : Variant) (hv : v.addHash = false) {a b : Style} (ha : Ha
     · simp [h1, h2]; exact hb
     · simp [h1, h2, hv, HashOk, fieldsKey]
 
-theorem cacheOk_add (v : Variant) {a b : Style} (ha : CacheOk a) (hb : CacheOk b) : CacheOk (add v a b) := by
+theorem cacheOk_add (v : StyleVariant) {a b : Style} (ha : CacheOk a) (hb : CacheOk b) : CacheOk (add v a b) := by
   unfold add
   by_cases h1 : b.isNull = true
   · simp [h1]; exact ha
@@ -239,11 +239,11 @@ theorem cacheOk_copy {s : Style} (h : CacheOk s) : CacheOk s.copy := by
 theorem inv_updateLink (v) {s : Style} (h : Inv s) (l) : Inv (updateLink v s l) :=
   ⟨h.attrs_sub, h.set_lt, by intro hn; simp [updateLink] at hn⟩
 
-theorem hashOk_updateLink (v : Variant) (hv : v.updateLinkHash = false) (s : Style) (l) :
+theorem hashOk_updateLink (v : StyleVariant) (hv : v.updateLinkHash = false) (s : Style) (l) :
     HashOk (updateLink v s l) := by
   simp [HashOk, updateLink, hv, fieldsKey]
 
-theorem cacheOk_updateLink (v : Variant) (hv : v.updateLinkDef = false) (s : Style) (l) :
+theorem cacheOk_updateLink (v : StyleVariant) (hv : v.updateLinkDef = false) (s : Style) (l) :
     CacheOk (updateLink v s l) := by
   simp [CacheOk, updateLink, hv]
 
@@ -253,14 +253,14 @@ theorem inv_withoutColor (v) {s : Style} (h : Inv s) : Inv (withoutColor v s) :=
   · exact inv_null
   · exact ⟨h.attrs_sub, h.set_lt, by intro hn; simp at hn⟩
 
-theorem hashOk_withoutColor (v : Variant) (hv : v.withoutColorHash = false) (s : Style) :
+theorem hashOk_withoutColor (v : StyleVariant) (hv : v.withoutColorHash = false) (s : Style) :
     HashOk (withoutColor v s) := by
   unfold withoutColor
   split
   · exact hashOk_null
   · simp [HashOk, hv, fieldsKey]
 
-theorem cacheOk_withoutColor (v : Variant) (s : Style) : CacheOk (withoutColor v s) := by
+theorem cacheOk_withoutColor (v : StyleVariant) (s : Style) : CacheOk (withoutColor v s) := by
   unfold withoutColor
   split
   · exact cacheOk_null
@@ -290,7 +290,7 @@ theorem parse_ok {v d s} (h : parse v d = .ok s) :
 /-! ### styles reachable through the public constructors -/
 
 /-- Every `Style` that the public constructors can produce (for the code variant `v`). -/
-inductive Reachable (v : Variant) : Style → Prop
+inductive Reachable (v : StyleVariant) : Style → Prop
   | null : Reachable v Style.null
   | init {c b kw l s} : init v c b kw l = .ok s → Reachable v s
   | fromColor (c b) : Reachable v (fromColor v c b)
@@ -340,7 +340,7 @@ theorem Reachable.inv {v s} (h : Reachable v s) : Inv s := by
   | strTouch _ ih => exact inv_strTouch ih
 
 /-- With the four hash repairs, every reachable style stores the hash of its own fields. -/
-theorem Reachable.hashOk {v : Variant} (h1 : v.addHash = false) (h2 : v.fromColorHash = false)
+theorem Reachable.hashOk {v : StyleVariant} (h1 : v.addHash = false) (h2 : v.fromColorHash = false)
     (h3 : v.withoutColorHash = false) (h4 : v.updateLinkHash = false) {s} (h : Reachable v s) : HashOk s := by
   induction h with
   | null => exact hashOk_null
@@ -357,7 +357,7 @@ theorem Reachable.hashOk {v : Variant} (h1 : v.addHash = false) (h2 : v.fromColo
   | strTouch _ ih => exact hashOk_strTouch ih
 
 /-- With the `update_link` cache repair, a cached definition is never stale. -/
-theorem Reachable.cacheOk {v : Variant} (h5 : v.updateLinkDef = false) {s} (h : Reachable v s) : CacheOk s := by
+theorem Reachable.cacheOk {v : StyleVariant} (h5 : v.updateLinkDef = false) {s} (h : Reachable v s) : CacheOk s := by
   induction h with
   | null => exact cacheOk_null
   | init h => exact cacheOk_init h
@@ -383,18 +383,18 @@ theorem fieldsKey_eq_of_eq {a b : Style} (h : eq a b = true) : a.fieldsKey = b.f
 
 /-! ### the `+` algebra -/
 
-theorem add_assoc (v : Variant) (a b c : Style) : add v (add v a b) c = add v a (add v b c) := by
+theorem add_assoc (v : StyleVariant) (a b c : Style) : add v (add v a b) c = add v a (add v b c) := by
   by_cases ha : a.isNull = true <;> by_cases hb : b.isNull = true <;> by_cases hc : c.isNull = true <;>
     simp [add, ha, hb, hc, Option.or_assoc, attrs_assoc, linkOr_assoc, Nat.or_assoc] <;>
     cases v.addHash <;> simp
 
-theorem add_null_right (v : Variant) (a : Style) : add v a Style.null = a := by
+theorem add_null_right (v : StyleVariant) (a : Style) : add v a Style.null = a := by
   simp [add, Style.null]
 
-theorem add_null_left (v : Variant) (a : Style) (h : a.isNull = false) : add v Style.null a = a := by
+theorem add_null_left (v : StyleVariant) (a : Style) (h : a.isNull = false) : add v Style.null a = a := by
   simp [add, Style.null, h]
 
-theorem attr_add (v : Variant) {a b : Style} (ha : Inv a) (hb : Inv b) (i : Nat) :
+theorem attr_add (v : StyleVariant) {a b : Style} (ha : Inv a) (hb : Inv b) (i : Nat) :
     (add v a b).attr i = (b.attr i).or (a.attr i) := by
   unfold add
   by_cases h1 : b.isNull = true
@@ -407,7 +407,7 @@ theorem attr_add (v : Variant) {a b : Style} (ha : Inv a) (hb : Inv b) (i : Nat)
       cases a.setAttributes.testBit i <;> cases b.setAttributes.testBit i <;> cases a.attributes.testBit i <;>
         cases b.attributes.testBit i <;> rfl
 
-theorem color_add (v : Variant) {a b : Style} (ha : Inv a) (hb : Inv b) :
+theorem color_add (v : StyleVariant) {a b : Style} (ha : Inv a) (hb : Inv b) :
     (add v a b).color = b.color.or a.color ∧ (add v a b).bgcolor = b.bgcolor.or a.bgcolor := by
   unfold add
   by_cases h1 : b.isNull = true
@@ -421,7 +421,7 @@ theorem color_add (v : Variant) {a b : Style} (ha : Inv a) (hb : Inv b) :
 /-- `""` and `None` both mean "no link". -/
 def linkVal (l : Option (List Char)) : Option (List Char) := if strTruthy l then l else none
 
-theorem link_add (v : Variant) {a b : Style} (ha : Inv a) (hb : Inv b) :
+theorem link_add (v : StyleVariant) {a b : Style} (ha : Inv a) (hb : Inv b) :
     linkVal (add v a b).link = if strTruthy b.link then b.link else linkVal a.link := by
   unfold add
   by_cases h1 : b.isNull = true
